@@ -3,6 +3,8 @@ import A2Verif.Lemmas.RenumberText
 import A2Verif.Lemmas.RenumberSel
 import A2Verif.Lemmas.RenumberFinal
 import A2Verif.Lemmas.RenumberMove
+import A2Verif.Lemmas.RenumberMoveFinal
+import A2Verif.Lemmas.RenumberTotal
 /-!
 # Property C16 — renumbering preserves program structure
 
@@ -12,14 +14,19 @@ out).  `renumber` is the code **with** `/verif/proposed_fixes/renumber-empty-sel
 is HEAD 27d20bf, for which the property is false (`legacy_empty_selection_violates`).
 
 Reading guide (clauses of the property):
-* refusal      — `accepts_only_in_bounds`, `accepts_only_without_collision`, `accepts_only_unique_primaries`,
+* refusal, contrapositives — `accepts_only_in_bounds`, `accepts_only_without_collision`, `accepts_only_unique_primaries`,
                  `accepts_move_only_if_allowed`, `empty_selection_refused`, `refusal_returns_nothing`
+* refusal in full — `refused_iff` (`renumber = Err` ⟺ `Refuse`, never a panic), `accepted_iff`, `accepted_not_refuse`,
+                 `renumber_outcome`, `needsMove_iff` (what "interleave" means), `refused_unmodified`,
+                 `move_last_row_refused` (the one spurious refusal)
 * (ii)         — `selected_rows_are_the_requested_lines`, `selected_primaries_sequence`
 * (iii)        — `edits_char`, `ref_follows`, `only_label_edits`
 * (iv)         — `bottom_up_eq_simultaneous`
 * (i)–(iv) as one theorem, no move — `renumber_correct`
-* move path    — `moved_block_partial` (the inserted block; the placement of the block is what is missing)
+* (i)–(iv) as one theorem, move    — `moved_block_placed` (content of the block: `moved_block_content`),
+                 `placement_ascending` (the block stands where its numbers belong)
 * building blocks of (i) — `one_edit_on_one_row`, `apply_loop_rows_partial`
+* theorems that read the current source (reference kinds, bounds, per-pass resets, object reuse) — `Props/C16Tree.lean`
 -/
 namespace A2Verif.C16
 open A2Verif.Model.Renumber A2Verif.Lemmas.Renumber
@@ -626,48 +633,25 @@ theorem prim_mem {defs : List (Nat × Label)} {sel : Range} {mapping : List (Nat
     subst this
     exact (mem_primEdits _ _ _).mpr ⟨num, lab, rest, n, hvs, hl, rfl⟩
 
-/-- **Move path, the moved block** (partial form of "with move: the selected block … ").  When the request is
-accepted and the selection has to move (`insert_pos.line ≠ sel.start.line`, REORDER set), the edit list is:
-a line separator appended at the end of the document, the pre-edited block inserted at column 0 of the
-insertion row, one deletion `(l,0)-(l+1,0)` for every selected row, and the label edits of the unselected rows.
-The inserted text `updated` is the document (each row terminated by `line_sep`) of the selected rows, in their
-order, in which exactly the labels standing on those rows whose number is a renumbered primary have been
-replaced by their images (clauses (ii)–(iv) for the block).
-
-MISSING for the full clause "(with move) the selected block is contiguous at the insertion row, the other rows
-keep their order": the effect of `apply_edits` on this mixed list — `replace_range` with the multi-row
-deletion ranges, the insertion of a multi-line text, the insertion at `end_pos` (including the special case
-`start.line == line_count`), and the row shifts between them.  Covered by the correspondence (≈ 600 real moves
-per quick run agree with the model) and by the oracles `same-lines` / `primary-sequence` / `refs-follow`. -/
-theorem moved_block_partial (i : Input) (out d : List Nat) (rows : List (List Nat)) (t crlf : Bool)
+/-- the text `build_edits` inserts when it moves: `apply_edits(sel_txt, sel_edits, sel.start.line)` succeeds and is
+the document of the selected rows with their labels replaced (see `moved_block_content`) -/
+theorem moved_block_text (i : Input) (d : List Nat) (rows : List (List Nat)) (t crlf : Bool)
     (hdoc : IsDoc d rows t) (hsrc : i.src = if crlf then lfToCrlf d else d)
     (hlab : labelsOK i.src i.defs i.refs = true) (hupdF : i.flags / 2 % 2 = 0)
-    (h : renumber i = .ok out) :
-    ∃ ext pl edits, plan i.src i.defs i.refs ext i.params = .ok pl ∧
-      buildEdits i.src i.defs i.refs ext i.params = .ok edits ∧ applyEdits i.src edits 0 = .ok out ∧
-      (pl.ins ≠ pl.sel.s.line →
-        ∃ updated block',
-          edits = [⟨⟨pl.endPos, pl.endPos⟩, pl.lineSep⟩, ⟨⟨⟨pl.ins, 0⟩, ⟨pl.ins, 0⟩⟩, updated⟩] ++
-            (rangeList pl.sel.s.line pl.sel.e.line).map (fun l => (⟨⟨⟨l, 0⟩, ⟨l + 1, 0⟩⟩, []⟩ : Edit)) ++
-            pl.unselEdits ∧
-          updated = (if pl.lineSep = [CR, LF] then lfToCrlf (joinT block') else joinT block') ∧
-          block'.length = pl.sel.e.line + 1 - pl.sel.s.line ∧
-          ∀ k l, k < block'.length → rows[pl.sel.s.line + k]? = some l →
-            ∃ as, Chain 0 l.length as ∧ block'[k]? = some (substAsc 0 l as) ∧
-              ∀ x, x ∈ as ↔ ∃ num lab n, ((num, lab) ∈ i.defs ∨ (num, lab) ∈ i.refs) ∧
-                lab.rng.s.line = pl.sel.s.line + k ∧ lookup pl.mapping num = some n ∧ x = labelEdit lab n) := by
-  obtain ⟨ext, pl, edits, hext, hany, hp, hb, happ⟩ := renumber_ok_inv h
-  refine ⟨ext, pl, edits, hp, hb, happ, ?_⟩
-  intro hmv
-  obtain ⟨pl', hp', hor⟩ := buildEdits_ok_inv hb
-  rw [hp] at hp'
-  injection hp' with hp'
-  subst hp'
-  rcases hor with ⟨h1, _⟩ | ⟨_, updated, hu, hedits⟩
-  · exact absurd h1 hmv
+    (huniq : ∀ num l1 l2, (num, l1) ∈ i.defs → (num, l2) ∈ i.defs → l1 = l2)
+    {ext : Option Range} {pl : Plan}
+    (hp : plan i.src i.defs i.refs ext i.params = .ok pl) :
+    ∃ block' : List (List Nat),
+      applyEdits pl.selTxt pl.selEdits pl.sel.s.line =
+        .ok (if pl.lineSep = [CR, LF] then lfToCrlf (joinT block') else joinT block') ∧
+      (∀ x ∈ block', NoNl x) ∧
+      block'.length = pl.sel.e.line + 1 - pl.sel.s.line ∧
+      ∀ k l, k < block'.length → rows[pl.sel.s.line + k]? = some l →
+        ∃ as, Chain 0 l.length as ∧ block'[k]? = some (substAsc 0 l as) ∧
+          ∀ x, x ∈ as ↔ ∃ num lab n, ((num, lab) ∈ i.defs ∨ (num, lab) ∈ i.refs) ∧
+            lab.rng.s.line = pl.sel.s.line + k ∧ lookup pl.mapping num = some n ∧ x = labelEdit lab n := by
   have hupd : i.params.updateRefs = true := by simp [Input.params, hupdF]
   have f := plan_ok_inv hp
-  have huniq := accepts_only_unique_primaries h
   have hsplit : splitLines i.src = rows := by
     rw [hsrc]
     cases crlf with
@@ -758,11 +742,10 @@ theorem moved_block_partial (i : Input) (out d : List Nat) (rows : List (List Na
     rw [h2]
   obtain ⟨d', block', happ', hd', hlen, hspec⟩ :=
     applyEdits_row_disjoint hblockDoc (decide (pl.lineSep = [CR, LF])) pl.selEdits pl.sel.s.line hfit hdisSel
-  rw [← hselTxt, hu] at happ'
-  injection happ' with hupdated
+  rw [← hselTxt] at happ'
   have hd'eq : d' = joinT block' := by simpa [IsDoc] using hd'.2
-  refine ⟨updated, block', hedits, ?_, by rw [hlen, hblockLen], ?_⟩
-  · rw [hupdated, hd'eq]
+  refine ⟨block', ?_, hd'.1, by rw [hlen, hblockLen], ?_⟩
+  · rw [happ', hd'eq]
     by_cases hs : pl.lineSep = [CR, LF] <;> simp [hs]
   · intro k l hk hl
     rw [hlen] at hk
@@ -782,6 +765,31 @@ theorem moved_block_partial (i : Input) (out d : List Nat) (rows : List (List Na
       simp only [inSel, Bool.and_eq_true, decide_eq_true_eq]
       omega
 
+/-- **Move path, the content of the moved block.**  `plan` succeeded, the selection has to move, and
+`updated = apply_edits(sel_txt, sel_edits, sel.start.line)` is the text `build_edits` inserts at the insertion row.
+Then `updated` is the document (each row terminated by `line_sep`) of the selected rows, in their order, in which
+exactly the labels standing on those rows whose number is a renumbered primary have been replaced by their images
+(clauses (ii)–(iv) for the block).  Where the block goes is `moved_block_placed`. -/
+theorem moved_block_content (i : Input) (out d : List Nat) (rows : List (List Nat)) (t crlf : Bool)
+    (hdoc : IsDoc d rows t) (hsrc : i.src = if crlf then lfToCrlf d else d)
+    (hlab : labelsOK i.src i.defs i.refs = true) (hupdF : i.flags / 2 % 2 = 0)
+    (h : renumber i = .ok out) {ext : Option Range} {pl : Plan} {updated : List Nat}
+    (hp : plan i.src i.defs i.refs ext i.params = .ok pl)
+    (hu : applyEdits pl.selTxt pl.selEdits pl.sel.s.line = .ok updated) :
+    ∃ block' : List (List Nat),
+      updated = (if pl.lineSep = [CR, LF] then lfToCrlf (joinT block') else joinT block') ∧
+      (∀ x ∈ block', NoNl x) ∧
+      block'.length = pl.sel.e.line + 1 - pl.sel.s.line ∧
+      ∀ k l, k < block'.length → rows[pl.sel.s.line + k]? = some l →
+        ∃ as, Chain 0 l.length as ∧ block'[k]? = some (substAsc 0 l as) ∧
+          ∀ x, x ∈ as ↔ ∃ num lab n, ((num, lab) ∈ i.defs ∨ (num, lab) ∈ i.refs) ∧
+            lab.rng.s.line = pl.sel.s.line + k ∧ lookup pl.mapping num = some n ∧ x = labelEdit lab n := by
+  obtain ⟨block', h1, h2, h3, h4⟩ :=
+    moved_block_text i d rows t crlf hdoc hsrc hlab hupdF (accepts_only_unique_primaries h) hp
+  rw [hu] at h1
+  injection h1 with h1
+  exact ⟨block', h1, h2, h3, h4⟩
+
 /-- a request that moves: `20 INPUT X / 30 PRINT X` become `1000 / 1002` and go behind `40 END`; the reference in
 row 0 follows -/
 def exMove : Input :=
@@ -789,7 +797,7 @@ def exMove : Input :=
     defs := [(10, ⟨⟨⟨0,0⟩,⟨0,3⟩⟩,0,1⟩), (20, ⟨⟨⟨1,0⟩,⟨1,3⟩⟩,0,1⟩), (30, ⟨⟨⟨2,0⟩,⟨2,3⟩⟩,0,1⟩), (40, ⟨⟨⟨3,0⟩,⟨3,3⟩⟩,0,1⟩)],
     refs := [(30, ⟨⟨⟨0,8⟩,⟨0,10⟩⟩,0,0⟩)], beg := 20, end_ := 40, first := 1000, step := 2, flags := 1, maxNum := 63999 }
 
-/-- `exMove` is an instance of `moved_block_partial` in which the block really moves
+/-- `exMove` is an instance of `moved_block_content` / `moved_block_placed` in which the block really moves
 (`10 GOTO 1002 / 40 END / 1000 INPUT X / 1002 PRINT X`) -/
 example :
     labelsOK exMove.src exMove.defs exMove.refs = true ∧ exMove.flags / 2 % 2 = 0 ∧
@@ -797,5 +805,1026 @@ example :
       49,48,48,50,32,80,82,73,78,84,32,88,10] ∧
     (plan exMove.src exMove.defs exMove.refs (some ⟨⟨1,0⟩,⟨3,0⟩⟩) exMove.params).bind
       (fun pl => .ok (pl.ins, pl.sel.s.line, pl.sel.e.line)) = .ok (4, 1, 2) := by decide
+
+/-! ## the move path, complete: where the block goes -/
+
+/-- what an accepted request selected and how it maps the selected numbers (shared by `renumber_correct` and
+`moved_block_placed`) -/
+theorem keys_spec {i : Input}
+    (hmono : ∀ d1 ∈ i.defs, ∀ d2 ∈ i.defs, d1.2.rng.s.line ≤ d2.2.rng.s.line → d1.1 ≤ d2.1)
+    (hrows : ∀ x ∈ i.defs, x.2.rng.s.line < 0x10000)
+    {ext : Option Range} {pl : Plan} (hext : extSelOf i.defs i.beg i.end_ = some ext)
+    (hany : anySelected i.defs i.beg i.end_ = true)
+    (hp : plan i.src i.defs i.refs ext i.params = .ok pl) :
+    ext = some ⟨⟨pl.sel.s.line, 0⟩, ⟨pl.sel.e.line + 1, 0⟩⟩ ∧ pl.sel.s.line ≤ pl.sel.e.line ∧
+    (∀ x ∈ i.defs, inSel pl.sel x.2 = true ↔ (i.beg ≤ x.1 ∧ x.1 < i.end_)) ∧
+    ((selGroup pl.sel i.defs).map (·.1)).Pairwise (· < ·) ∧
+    (∀ num, num ∈ (selGroup pl.sel i.defs).map (·.1) ↔ (∃ lab, (num, lab) ∈ i.defs ∧ inSel pl.sel lab = true)) ∧
+    (∀ num, num ∈ (selGroup pl.sel i.defs).map (·.1) ↔ (∃ lab, (num, lab) ∈ i.defs) ∧ i.beg ≤ num ∧ num < i.end_) ∧
+    (∀ k num, ((selGroup pl.sel i.defs).map (·.1))[k]? = some num →
+      lookup pl.mapping num = some (i.first + k * i.step)) ∧
+    (∀ num, num ∉ (selGroup pl.sel i.defs).map (·.1) → lookup pl.mapping num = none) := by
+  have f := plan_ok_inv hp
+  obtain ⟨l0, ln, rfl, hle, hiff⟩ := extSelOf_spec i.defs i.beg i.end_ ext hext hany hmono hrows
+  obtain ⟨ep, hns⟩ := f.selNorm
+  obtain ⟨hs0, hs1⟩ := normSel_rows hle hns
+  have hkeys : ∀ num, num ∈ (selGroup pl.sel i.defs).map (·.1) ↔
+      (∃ lab, (num, lab) ∈ i.defs ∧ inSel pl.sel lab = true) := by
+    intro num
+    constructor
+    · intro hk
+      obtain ⟨⟨k, vs⟩, hx, rfl⟩ := List.mem_map.mp hk
+      have hne := group_vals_ne_nil _ _ hx
+      cases vs with
+      | nil => exact absurd rfl hne
+      | cons v rest =>
+        have : MemG (selGroup pl.sel i.defs) k v := ⟨v :: rest, hx, by simp⟩
+        unfold selGroup at this
+        rw [memG_group] at this
+        exact ⟨v, List.mem_filter.mp this⟩
+    · rintro ⟨lab, hm, hin⟩
+      have : MemG (selGroup pl.sel i.defs) num lab := by
+        unfold selGroup; rw [memG_group]; exact List.mem_filter.mpr ⟨hm, hin⟩
+      obtain ⟨vs, hvs, _⟩ := this
+      exact List.mem_map.mpr ⟨(num, vs), hvs, rfl⟩
+  have hinSel : ∀ x ∈ i.defs, inSel pl.sel x.2 = true ↔ (i.beg ≤ x.1 ∧ x.1 < i.end_) := by
+    intro x hx
+    rw [← hiff x hx]
+    simp only [inSel, Bool.and_eq_true, decide_eq_true_eq, hs0, hs1]
+  refine ⟨by rw [hs0, hs1], by omega, hinSel, keysSorted_group _, hkeys, ?_, ?_, ?_⟩
+  · intro num
+    rw [hkeys]
+    constructor
+    · rintro ⟨lab, hm, hin⟩
+      exact ⟨⟨lab, hm⟩, (hinSel _ hm).mp hin⟩
+    · rintro ⟨⟨lab, hm⟩, hb⟩
+      exact ⟨lab, hm, (hinSel _ hm).mpr hb⟩
+  · intro k num hk
+    have hnd : ((selGroup pl.sel i.defs).map (·.1)).Nodup := keys_nodup_group _
+    have := lookup_mkMapping i.params.l0 i.params.dl _ hnd k num hk
+    rw [← f.mapping] at this
+    exact this
+  · intro num hn
+    exact lookup_none_of_not_mem pl.mapping num (by rw [f.mapping, mkMapping_keys]; exact hn)
+
+/-- what `build_edits` returns when it moves, and the block -/
+theorem move_setup {i : Input} {d : List Nat} {rows : List (List Nat)} {t crlf : Bool}
+    (hdoc : IsDoc d rows t) (hsrc : i.src = if crlf then lfToCrlf d else d)
+    (hlab : labelsOK i.src i.defs i.refs = true)
+    (hrows : ∀ x ∈ i.defs, x.2.rng.s.line < 0x10000)
+    (hupdF : i.flags / 2 % 2 = 0)
+    (huniq : ∀ num l1 l2, (num, l1) ∈ i.defs → (num, l2) ∈ i.defs → l1 = l2)
+    {ext : Option Range} {pl : Plan}
+    (hext : extSelOf i.defs i.beg i.end_ = some ext)
+    (hextEq : ext = some ⟨⟨pl.sel.s.line, 0⟩, ⟨pl.sel.e.line + 1, 0⟩⟩) (hab : pl.sel.s.line ≤ pl.sel.e.line)
+    (hp : plan i.src i.defs i.refs ext i.params = .ok pl) (hmv : pl.ins ≠ pl.sel.s.line) :
+    ∃ (B : List (List Nat)) (updated last : List Nat),
+      MoveCtx rows pl.sel.s.line pl.sel.e.line pl.ins last pl.lineSep updated B pl.unselEdits ∧
+      buildEdits i.src i.defs i.refs ext i.params =
+        .ok (moveEdits rows.length pl.sel.s.line pl.sel.e.line pl.ins last.length pl.lineSep updated pl.unselEdits) ∧
+      B.length = pl.sel.e.line + 1 - pl.sel.s.line ∧
+      ∀ k l, k < B.length → rows[pl.sel.s.line + k]? = some l →
+        ∃ as, Chain 0 l.length as ∧ B[k]? = some (substAsc 0 l as) ∧
+          ∀ x, x ∈ as ↔ ∃ num lab n, ((num, lab) ∈ i.defs ∨ (num, lab) ∈ i.refs) ∧
+            lab.rng.s.line = pl.sel.s.line + k ∧ lookup pl.mapping num = some n ∧ x = labelEdit lab n := by
+  have hupd : i.params.updateRefs = true := by simp [Input.params, hupdF]
+  have hsplit : splitLines i.src = rows := by
+    rw [hsrc]
+    cases crlf with
+    | true => simp only [↓reduceIte]; rw [splitLines_lfToCrlf d (noCR_isDoc hdoc)]; exact splitLines_isDoc hdoc
+    | false => exact splitLines_isDoc hdoc
+  have hlab' := hlab
+  unfold labelsOK at hlab'
+  simp only [hsplit, Bool.and_eq_true, List.all_eq_true] at hlab'
+  obtain ⟨hok, hpw⟩ := hlab'
+  have hpw' : (i.defs ++ i.refs).Pairwise DisjX := by
+    have := (pairwiseB_iff _ _).mp hpw
+    rw [List.pairwise_map] at this
+    exact this
+  subst hextEq
+  obtain ⟨hda, hdb⟩ := extSelOf_ends i.defs i.beg i.end_ _ _ hext hrows
+  obtain ⟨B, hu, hBnl, hBlen, hBspec⟩ := moved_block_text i d rows t crlf hdoc hsrc hlab hupdF huniq hp
+  obtain ⟨last, hend, c⟩ := moveCtx_of_plan hp hupd rows hsplit hdoc.1 hok hpw' hmv hab hda hdb B hBnl hBlen
+    _ rfl
+  refine ⟨B, _, last, c, ?_, hBlen, hBspec⟩
+  unfold buildEdits
+  simp only [hp, Res.bind, hu]
+  rw [if_pos hmv, hend]
+  rfl
+
+/-- **C16 for requests that move lines** (REORDER set, `insert_pos.line ≠ sel.start.line`): clauses (i)–(iv) and the
+placement of the block.
+
+Hypotheses as in `renumber_correct` except that the REORDER flag is free.  Conclusion, for an accepted request that
+moves: `keys`/`mapping` as in `renumber_correct` (ii); the selected rows are exactly the rows `a..b` whose line number
+lies in `[beg,end)`; the insertion row `ins` lies outside `a..b+1`; there is the row-wise renumbered program `new` —
+row `r` of the source in which **exactly** the labels (defining or referring) whose number is a key are replaced by
+their images, simultaneously, every other character kept (iii, iv) — and the output is the text (same separator
+LF/CRLF, always with a final newline) of the rows
+
+  `placeFrom a b ins block 0 new ++ (an empty row, if the source ended in a newline) ++ (block, if ins = #rows)`
+
+where `block = new[a..b]` and `placeFrom` walks `new` in source order, drops the rows `a..b`, keeps every other row, and
+emits `block` immediately in front of source row `ins` (i): the rows outside the selection keep their relative order, so
+do the rows of the block, the block is contiguous, nothing else is added or lost.  The empty row comes from the
+`line_sep` that `build_edits` appends at `end_pos` (needed when the text has no final newline; harmless otherwise).
+That the numbers ascend in the result is `moved_block_ascending`; the one spurious refusal of the move path is
+`move_last_row_refused`. -/
+theorem moved_block_placed (i : Input) (out d : List Nat) (rows : List (List Nat)) (t crlf : Bool)
+    (hdoc : IsDoc d rows t) (hsrc : i.src = if crlf then lfToCrlf d else d)
+    (hlab : labelsOK i.src i.defs i.refs = true)
+    (hmono : ∀ d1 ∈ i.defs, ∀ d2 ∈ i.defs, d1.2.rng.s.line ≤ d2.2.rng.s.line → d1.1 ≤ d2.1)
+    (hrows : ∀ x ∈ i.defs, x.2.rng.s.line < 0x10000)
+    (hupdF : i.flags / 2 % 2 = 0)
+    (h : renumber i = .ok out) :
+    ∃ ext pl, plan i.src i.defs i.refs ext i.params = .ok pl ∧
+      (pl.ins ≠ pl.sel.s.line →
+        ∃ (keys : List Nat) (new : List (List Nat)),
+          keys.Pairwise (· < ·) ∧
+          (∀ num, num ∈ keys ↔ (∃ lab, (num, lab) ∈ i.defs) ∧ i.beg ≤ num ∧ num < i.end_) ∧
+          (∀ k num, keys[k]? = some num → lookup pl.mapping num = some (i.first + k * i.step)) ∧
+          (∀ num, num ∉ keys → lookup pl.mapping num = none) ∧
+          pl.sel.s.line ≤ pl.sel.e.line ∧ pl.sel.e.line < rows.length ∧
+          (∀ x ∈ i.defs, (pl.sel.s.line ≤ x.2.rng.s.line ∧ x.2.rng.s.line ≤ pl.sel.e.line) ↔
+            (i.beg ≤ x.1 ∧ x.1 < i.end_)) ∧
+          (pl.ins < pl.sel.s.line ∨ pl.sel.e.line + 2 ≤ pl.ins) ∧ pl.ins ≤ rows.length ∧
+          new.length = rows.length ∧
+          (∀ r l, rows[r]? = some l → ∃ as, Chain 0 l.length as ∧ new[r]? = some (substAsc 0 l as) ∧
+            ∀ x, x ∈ as ↔ ∃ num lab n, ((num, lab) ∈ i.defs ∨ (num, lab) ∈ i.refs) ∧ lab.rng.s.line = r ∧
+              lookup pl.mapping num = some n ∧ x = labelEdit lab n) ∧
+          out = (let block := (new.drop pl.sel.s.line).take (pl.sel.e.line + 1 - pl.sel.s.line)
+                 let rows' := placeFrom pl.sel.s.line pl.sel.e.line pl.ins block 0 new ++
+                   ((if t then [[]] else []) ++ (if pl.ins = rows.length then block else []))
+                 if crlf then lfToCrlf (joinT rows') else joinT rows')) := by
+  obtain ⟨ext, pl, edits, hext, hany, hp, hb, happ⟩ := renumber_ok_inv h
+  refine ⟨ext, pl, hp, ?_⟩
+  intro hmv
+  obtain ⟨hextEq, hab, hinSel, hks, hkeys, hkeys2, hmap, hnomap⟩ := keys_spec hmono hrows hext hany hp
+  have huniq := accepts_only_unique_primaries h
+  obtain ⟨B, updated, last, c, hbe, hBlen, hBspec⟩ :=
+    move_setup hdoc hsrc hlab hrows hupdF huniq hext hextEq hab hp hmv
+  have hedits : edits = moveEdits rows.length pl.sel.s.line pl.sel.e.line pl.ins last.length pl.lineSep updated
+      pl.unselEdits := by
+    rw [hb] at hbe; injection hbe
+  have f := plan_ok_inv hp
+  have hupd : i.params.updateRefs = true := by simp [Input.params, hupdF]
+  have hsplit : splitLines i.src = rows := by
+    rw [hsrc]
+    cases crlf with
+    | true => simp only [↓reduceIte]; rw [splitLines_lfToCrlf d (noCR_isDoc hdoc)]; exact splitLines_isDoc hdoc
+    | false => exact splitLines_isDoc hdoc
+  have hlab' := hlab
+  unfold labelsOK at hlab'
+  simp only [hsplit, Bool.and_eq_true, List.all_eq_true] at hlab'
+  obtain ⟨hok, _⟩ := hlab'
+  -- the one failing case is excluded by `h`
+  have hokk : t = true ∨ pl.sel.e.line + 1 < rows.length := by
+    cases ht : t with
+    | true => exact Or.inl rfl
+    | false =>
+      right
+      rcases Nat.lt_or_ge (pl.sel.e.line + 1) rows.length with h' | h'
+      · exact h'
+      · have hbL := c.hbL
+        subst ht
+        have := c.applyEdits_move_err hdoc crlf (by omega)
+        rw [← hsrc, ← hedits, happ] at this
+        cases this
+  obtain ⟨N, hNlen, _, hNspec, hres⟩ := c.applyEdits_move hdoc crlf hokk
+  rw [← hsrc, ← hedits, happ] at hres
+  injection hres with hout
+  -- the row-wise renumbered program
+  have haL : pl.sel.s.line ≤ N.length := by have := c.hbL; omega
+  have hlenA : (N.take pl.sel.s.line).length = pl.sel.s.line := by simp; omega
+  have hnewLen : (N.take pl.sel.s.line ++ B ++ N.drop (pl.sel.e.line + 1)).length = rows.length := by
+    have := c.hbL
+    simp [hBlen, hNlen]; omega
+  have hget : ∀ r, (N.take pl.sel.s.line ++ B ++ N.drop (pl.sel.e.line + 1))[r]? =
+      if pl.sel.s.line ≤ r ∧ r ≤ pl.sel.e.line then B[r - pl.sel.s.line]? else N[r]? := by
+    intro r
+    have hbL := c.hbL
+    by_cases h1 : r < pl.sel.s.line
+    · rw [if_neg (by omega), List.getElem?_append_left (by simp [hlenA]; omega),
+        List.getElem?_append_left (by rw [hlenA]; exact h1), List.getElem?_take, if_pos h1]
+    · by_cases h2 : r ≤ pl.sel.e.line
+      · rw [if_pos ⟨by omega, h2⟩, List.getElem?_append_left (by simp [hlenA, hBlen]; omega),
+          List.getElem?_append_right (by rw [hlenA]; omega), hlenA]
+      · rw [if_neg (by omega), List.getElem?_append_right (by simp [hlenA, hBlen]; omega)]
+        simp only [List.length_append, hlenA, hBlen, List.getElem?_drop]
+        congr 1; omega
+  have hblock : ((N.take pl.sel.s.line ++ B ++ N.drop (pl.sel.e.line + 1)).drop pl.sel.s.line).take
+      (pl.sel.e.line + 1 - pl.sel.s.line) = B := by
+    rw [List.append_assoc, List.drop_left' hlenA, List.take_left' hBlen]
+  have hplace : placeFrom pl.sel.s.line pl.sel.e.line pl.ins B 0 N =
+      placeFrom pl.sel.s.line pl.sel.e.line pl.ins B 0 (N.take pl.sel.s.line ++ B ++ N.drop (pl.sel.e.line + 1)) := by
+    apply placeFrom_congr
+    · rw [hnewLen, hNlen]
+    · intro j hj
+      rw [hget j, if_neg (by simpa using hj)]
+  have hkeyOf : ∀ num n, lookup pl.mapping num = some n → num ∈ (selGroup pl.sel i.defs).map (·.1) := by
+    intro num n hl
+    apply Classical.byContradiction
+    intro hn
+    rw [hnomap num hn] at hl; cases hl
+  refine ⟨(selGroup pl.sel i.defs).map (·.1), N.take pl.sel.s.line ++ B ++ N.drop (pl.sel.e.line + 1),
+    hks, hkeys2, hmap, hnomap, hab, c.hbL, ?_, ?_, c.hinsL, hnewLen, ?_, ?_⟩
+  · intro x hx
+    rw [← hinSel x hx]
+    simp only [inSel, Bool.and_eq_true, decide_eq_true_eq]
+  · have := c.hins; omega
+  · intro r l hl
+    rw [hget r]
+    by_cases hsel : pl.sel.s.line ≤ r ∧ r ≤ pl.sel.e.line
+    · rw [if_pos hsel]
+      have hk : r - pl.sel.s.line < B.length := by rw [hBlen]; omega
+      have hr : pl.sel.s.line + (r - pl.sel.s.line) = r := by omega
+      have := hBspec (r - pl.sel.s.line) l hk (by rw [hr]; exact hl)
+      rw [hr] at this
+      exact this
+    · rw [if_neg hsel]
+      obtain ⟨as, hc, hrow, hm⟩ := hNspec r l hl
+      refine ⟨as, hc, hrow, ?_⟩
+      intro x
+      rw [hm]
+      constructor
+      · rintro ⟨ed, hed, hr, rfl⟩
+        rw [f.unselEdits, if_pos hupd] at hed
+        obtain ⟨s, item, n, hmg, hlk, _, rfl⟩ := (mem_secEdits _ _ _ _).mp hed
+        exact ⟨s, item, n, Or.inr ((memG_group i.refs s item).mp hmg), hr, hlk, rfl⟩
+      · rintro ⟨num, lab, n, hmm, hr, hlk, rfl⟩
+        rcases hmm with hmm | hmm
+        · -- a defining label with a mapped number stands on a selected row
+          exfalso
+          obtain ⟨lab', hm', hin'⟩ := (hkeys num).mp (hkeyOf num n hlk)
+          have := huniq num lab lab' hmm hm'
+          subst this
+          simp only [inSel, Bool.and_eq_true, decide_eq_true_eq] at hin'
+          exact hsel (by omega)
+        · refine ⟨applyMapping n lab, ?_, hr, rfl⟩
+          rw [f.unselEdits, if_pos hupd]
+          refine (mem_secEdits _ _ _ _).mpr ⟨num, lab, n, (memG_group i.refs num lab).mpr hmm, hlk, ?_, rfl⟩
+          obtain ⟨_, _, he, _, _⟩ := labelOK_geom (hok _ (List.mem_append_right _ hmm))
+          dsimp only at he
+          simp only [Bool.or_eq_true, decide_eq_true_eq]
+          omega
+  · simp only []
+    rw [hblock, ← hplace, ← hout]
+
+/-- `exMove` meets the hypotheses of `moved_block_placed`, it moves (`ins = 4` is the row count, `a..b = 1..2`), and
+the output is the placement of the row-wise renumbered program
+`new = 10 GOTO 1002 / 1000 INPUT X / 1002 PRINT X / 40 END` -/
+example :
+    let d := exMove.src
+    let rows := [[49,48,32,71,79,84,79,32,51,48], [50,48,32,73,78,80,85,84,32,88], [51,48,32,80,82,73,78,84,32,88],
+      [52,48,32,69,78,68]]
+    let new := [[49,48,32,71,79,84,79,32,49,48,48,50], [49,48,48,48,32,73,78,80,85,84,32,88],
+      [49,48,48,50,32,80,82,73,78,84,32,88], [52,48,32,69,78,68]]
+    IsDoc d rows false ∧
+    (∀ d1 ∈ exMove.defs, ∀ d2 ∈ exMove.defs, d1.2.rng.s.line ≤ d2.2.rng.s.line → d1.1 ≤ d2.1) ∧
+    (∀ x ∈ exMove.defs, x.2.rng.s.line < 0x10000) ∧
+    renumber exMove = .ok (joinT (placeFrom 1 2 4 ((new.drop 1).take 2) 0 new ++ ([] ++ (new.drop 1).take 2))) := by
+  refine ⟨⟨by unfold NoNl; decide, ?_⟩, by decide, by decide, by decide⟩
+  simp only [Bool.false_eq_true, ↓reduceIte]
+  exact ⟨by decide, [[49,48,32,71,79,84,79,32,51,48], [50,48,32,73,78,80,85,84,32,88], [51,48,32,80,82,73,78,84,32,88]],
+    [52,48,32,69,78,68], rfl, by decide⟩
+
+/-- **The one spurious refusal of the move path.**  A request that has to move the *last* row of a text *without* final
+newline is refused (`apply edits failed`): the deletion range `(l,0)-(l+1,0)` of that row has no end position in
+`replace_range`.  (With a final newline the same request is accepted, see `moved_block_placed`.)  A refusal returns no
+text, so the property is not violated; the case is listed in `refused_iff`. -/
+theorem move_last_row_refused (i : Input) (d : List Nat) (rows : List (List Nat)) (crlf : Bool)
+    (hdoc : IsDoc d rows false) (hsrc : i.src = if crlf then lfToCrlf d else d)
+    (hlab : labelsOK i.src i.defs i.refs = true)
+    (hmono : ∀ d1 ∈ i.defs, ∀ d2 ∈ i.defs, d1.2.rng.s.line ≤ d2.2.rng.s.line → d1.1 ≤ d2.1)
+    (hrows : ∀ x ∈ i.defs, x.2.rng.s.line < 0x10000)
+    (hupdF : i.flags / 2 % 2 = 0) :
+    ∀ out, renumber i = .ok out → ∀ ext pl, plan i.src i.defs i.refs ext i.params = .ok pl →
+      extSelOf i.defs i.beg i.end_ = some ext → pl.ins ≠ pl.sel.s.line → pl.sel.e.line + 1 < rows.length := by
+  intro out h ext' pl' hp' hext' hmv
+  obtain ⟨ext, pl, edits, hext, hany, hp, hb, happ⟩ := renumber_ok_inv h
+  rw [hext'] at hext
+  injection hext with hext
+  subst hext
+  rw [hp'] at hp
+  injection hp with hp
+  subst hp
+  obtain ⟨hextEq, hab, _⟩ := keys_spec hmono hrows hext' hany hp'
+  obtain ⟨B, updated, last, c, hbe, _, _⟩ :=
+    move_setup hdoc hsrc hlab hrows hupdF (accepts_only_unique_primaries h) hext' hextEq hab hp' hmv
+  have hedits : edits = moveEdits rows.length pl'.sel.s.line pl'.sel.e.line pl'.ins last.length pl'.lineSep updated
+      pl'.unselEdits := by
+    rw [hb] at hbe; injection hbe
+  rcases Nat.lt_or_ge (pl'.sel.e.line + 1) rows.length with h' | h'
+  · exact h'
+  · have hbL := c.hbL
+    have := c.applyEdits_move_err hdoc crlf (by omega)
+    rw [← hsrc, ← hedits, happ] at this
+    cases this
+
+/-- instance: `10 A / 20 B / 30 C` without final newline, `30` renumbered to `5` with REORDER: refused; the same text
+with a final newline is accepted -/
+example :
+    renumber { src := [49,48,32,65,10,50,48,32,66,10,51,48,32,67],
+               defs := [(10, ⟨⟨⟨0,0⟩,⟨0,3⟩⟩,0,1⟩), (20, ⟨⟨⟨1,0⟩,⟨1,3⟩⟩,0,1⟩), (30, ⟨⟨⟨2,0⟩,⟨2,3⟩⟩,0,1⟩)],
+               refs := [], beg := 30, end_ := 31, first := 5, step := 1, flags := 1, maxNum := 63999 } = .err ∧
+    renumber { src := [49,48,32,65,10,50,48,32,66,10,51,48,32,67,10],
+               defs := [(10, ⟨⟨⟨0,0⟩,⟨0,3⟩⟩,0,1⟩), (20, ⟨⟨⟨1,0⟩,⟨1,3⟩⟩,0,1⟩), (30, ⟨⟨⟨2,0⟩,⟨2,3⟩⟩,0,1⟩)],
+               refs := [], beg := 30, end_ := 31, first := 5, step := 1, flags := 1, maxNum := 63999 } =
+      .ok [53,32,67,10,49,48,32,65,10,50,48,32,66,10,10] := by decide
+
+/-- **The block is placed where its new numbers belong** (every accepted request, moving or not).  `ins` is the row in
+front of which the block stands in the result (`ins = a` when nothing moves).  Every line outside the selection that
+stands before row `ins` has a number below `first`; every one from row `ins` on has a number above the last new number
+`first + step*(n-1)`; the selected lines get `first ≤ … ≤ last`, ascending in their row order.  As the unselected lines
+keep their numbers and their order (`moved_block_placed` / `renumber_correct`) and ascend by hypothesis, the line numbers
+of the result are strictly increasing. -/
+theorem placement_ascending (i : Input) (out d : List Nat) (rows : List (List Nat)) (t crlf : Bool)
+    (hdoc : IsDoc d rows t) (hsrc : i.src = if crlf then lfToCrlf d else d)
+    (hlab : labelsOK i.src i.defs i.refs = true)
+    (hmono : ∀ d1 ∈ i.defs, ∀ d2 ∈ i.defs, d1.2.rng.s.line ≤ d2.2.rng.s.line → d1.1 ≤ d2.1)
+    (hrows : ∀ x ∈ i.defs, x.2.rng.s.line < 0x10000)
+    (h : renumber i = .ok out) :
+    ∃ ext pl, plan i.src i.defs i.refs ext i.params = .ok pl ∧
+      (∀ x ∈ i.defs, ¬ (i.beg ≤ x.1 ∧ x.1 < i.end_) →
+        (x.2.rng.s.line < pl.ins → x.1 < i.first) ∧
+        (pl.ins ≤ x.2.rng.s.line → lastNum i.params pl.sel i.defs < x.1)) ∧
+      (∀ x ∈ i.defs, ∀ y ∈ i.defs, (i.beg ≤ x.1 ∧ x.1 < i.end_) → (i.beg ≤ y.1 ∧ y.1 < i.end_) →
+        x.2.rng.s.line < y.2.rng.s.line →
+        ∃ nx ny, lookup pl.mapping x.1 = some nx ∧ lookup pl.mapping y.1 = some ny ∧
+          i.first ≤ nx ∧ nx < ny ∧ ny ≤ lastNum i.params pl.sel i.defs) := by
+  obtain ⟨ext, pl, edits, hext, hany, hp, hb, happ⟩ := renumber_ok_inv h
+  refine ⟨ext, pl, hp, ?_, ?_⟩
+  · obtain ⟨_, _, hinSel, _, _, _, _, _⟩ := keys_spec hmono hrows hext hany hp
+    have f := plan_ok_inv hp
+    have hsplit : splitLines i.src = rows := by
+      rw [hsrc]
+      cases crlf with
+      | true => simp only [↓reduceIte]; rw [splitLines_lfToCrlf d (noCR_isDoc hdoc)]; exact splitLines_isDoc hdoc
+      | false => exact splitLines_isDoc hdoc
+    have hlab' := hlab
+    unfold labelsOK at hlab'
+    simp only [hsplit, Bool.and_eq_true, List.all_eq_true] at hlab'
+    obtain ⟨hok, _⟩ := hlab'
+    obtain ⟨ins0, hck, hins⟩ := f.check
+    rw [hsplit] at hins
+    obtain ⟨_, hbound, hatt⟩ := checkLoop_ins hck
+    obtain ⟨p1, p2, _, _⟩ := pushBlank_spec rows 0 ins0 (Nat.zero_le _)
+    rw [← hins] at p1 p2
+    simp only [Nat.sub_zero] at p2
+    have hcoll := accepts_only_without_collision hp
+    have hl0 : i.params.l0 = i.first := rfl
+    -- an unselected defining label is an entry `[lab]` of the grouped map and does not lie on the selected rows
+    have hentry : ∀ x ∈ i.defs, ¬ (i.beg ≤ x.1 ∧ x.1 < i.end_) →
+        (x.1, [x.2]) ∈ group i.defs ∧ ¬ onSelRows pl.sel x.2 := by
+      intro x hx hns
+      obtain ⟨vs, hvs, hl⟩ := (memG_group i.defs x.1 x.2).mpr hx
+      obtain ⟨i0, hi0, _⟩ := checkLoop_some hck _ hvs
+      dsimp only at hi0
+      subst hi0
+      simp only [List.mem_singleton] at hl
+      subst hl
+      refine ⟨hvs, ?_⟩
+      intro hon
+      obtain ⟨_, _, he, _, _⟩ := labelOK_geom (hok _ (List.mem_append_left _ hx))
+      apply hns
+      rw [← hinSel x hx]
+      unfold onSelRows at hon
+      simp only [inSel, Bool.and_eq_true, decide_eq_true_eq]
+      omega
+    intro x hx hns
+    obtain ⟨hxe, hxout⟩ := hentry x hx hns
+    have hnc := hcoll x.1 x.2 hx hxout
+    rw [hl0] at hnc
+    constructor
+    · intro hrow
+      apply Classical.byContradiction
+      intro hge
+      rcases Nat.lt_or_ge x.2.rng.s.line ins0 with hlt | hge0
+      · rcases hatt with h0 | ⟨q, i0, hm, _, hq, h0⟩
+        · omega
+        · have hmem : (q, i0) ∈ i.defs := (memG_group i.defs q i0).mp ⟨[i0], hm, by simp⟩
+          have := hmono x hx (q, i0) hmem (by dsimp only; omega)
+          dsimp only at this
+          rw [hl0] at hq
+          omega
+      · obtain ⟨l, hl, hbl⟩ := p2 _ hge0 hrow
+        obtain ⟨l', hl', hb'⟩ := labelOK_nonblank (hok _ (List.mem_append_left _ hx))
+        rw [hl] at hl'
+        injection hl' with hl'
+        subst hl'
+        rw [hbl] at hb'; cases hb'
+    · intro hrow
+      have hfb : i.first ≤ lastNum i.params pl.sel i.defs := by unfold lastNum; rw [hl0]; omega
+      rcases Nat.lt_or_ge x.1 i.first with hlt | hge
+      · have := hbound x.1 x.2 hxe hxout (by rw [hl0]; exact hlt)
+        omega
+      · omega
+  · obtain ⟨_, _, hinSel, hks, hkeys, _, hmap, _⟩ := keys_spec hmono hrows hext hany hp
+    have f := plan_ok_inv hp
+    have huniq := accepts_only_unique_primaries h
+    intro x hx y hy hxs hys hrow
+    have hxk : x.1 ∈ (selGroup pl.sel i.defs).map (·.1) := (hkeys x.1).mpr ⟨x.2, hx, (hinSel x hx).mpr hxs⟩
+    have hyk : y.1 ∈ (selGroup pl.sel i.defs).map (·.1) := (hkeys y.1).mpr ⟨y.2, hy, (hinSel y hy).mpr hys⟩
+    obtain ⟨kx, hkx⟩ := List.getElem?_of_mem hxk
+    obtain ⟨ky, hky⟩ := List.getElem?_of_mem hyk
+    have hle := hmono x hx y hy (Nat.le_of_lt hrow)
+    have hne : x.1 ≠ y.1 := by
+      intro heq
+      have := huniq x.1 x.2 y.2 hx (by rw [heq]; exact hy)
+      rw [this] at hrow
+      omega
+    have hkk : kx < ky := by
+      obtain ⟨hx1, hx2⟩ := List.getElem?_eq_some_iff.mp hkx
+      obtain ⟨hy1, hy2⟩ := List.getElem?_eq_some_iff.mp hky
+      rcases Nat.lt_trichotomy kx ky with hlt | heq | hgt
+      · exact hlt
+      · subst heq; rw [hx2] at hy2; exact absurd hy2 hne
+      · have := (List.pairwise_iff_getElem.mp hks) ky kx hy1 hx1 hgt
+        rw [hx2, hy2] at this
+        omega
+    have hkyl : ky < (selGroup pl.sel i.defs).length := by
+      obtain ⟨hy1, _⟩ := List.getElem?_eq_some_iff.mp hky
+      simpa using hy1
+    have hdl := f.dl_ok
+    have hs : i.params.dl = i.step := rfl
+    refine ⟨_, _, hmap kx x.1 hkx, hmap ky y.1 hky, Nat.le_add_right _ _, ?_, ?_⟩
+    · have : kx * i.step < ky * i.step := Nat.mul_lt_mul_of_pos_right hkk (by omega)
+      omega
+    · unfold lastNum
+      have : ky * i.step ≤ ((selGroup pl.sel i.defs).length - 1) * i.step := Nat.mul_le_mul_right _ (by omega)
+      have hl0 : i.params.l0 = i.first := rfl
+      rw [hl0, hs, Nat.mul_comm i.step]
+      omega
+
+/-- `exMove`: the unselected `10` (row 0 < ins = 4) is below 1000, the selected `20`, `30` become `1000 < 1002` -/
+example : (plan exMove.src exMove.defs exMove.refs (some ⟨⟨1,0⟩,⟨3,0⟩⟩) exMove.params).bind
+    (fun pl => .ok (pl.ins, lookup pl.mapping 20, lookup pl.mapping 30, lastNum exMove.params pl.sel exMove.defs)) =
+      .ok (4, some 1000, some 1002, 1002) := by decide
+
+/-! ## the refusal clause in full: exactly which requests are refused
+
+`Refuse` is stated on the program and the request alone (which numbers are selected, which are not, where their lines
+stand), not on the loops of the code. -/
+
+/-- the request selects the line number `x` -/
+def selNum (i : Input) (x : Nat) : Bool := decide (i.beg ≤ x) && decide (x < i.end_)
+
+/-- the defining labels of the selected / of the other lines -/
+def selDefs (i : Input) : List (Nat × Label) := i.defs.filter (fun d => selNum i d.1)
+def unselDefs (i : Input) : List (Nat × Label) := i.defs.filter (fun d => !selNum i d.1)
+
+/-- the last new number `first + step*(n-1)` -/
+def lastNew (i : Input) : Nat := i.first + i.step * ((selDefs i).length - 1)
+
+/-- **interleave**: the selected lines are not where their new numbers belong — a line behind the selection has a
+number below `first`, or a non-blank row in front of the selection stands behind every line numbered below `first`
+(i.e. a line in front of the selection has a number above the new range) -/
+def NeedsMove (i : Input) (rows : List (List Nat)) : Prop :=
+  (∃ x ∈ unselDefs i, x.1 < i.first ∧ ∃ s ∈ selDefs i, s.2.rng.s.line < x.2.rng.s.line) ∨
+  (∃ r l, rows[r]? = some l ∧ isBlank l = false ∧ (∀ s ∈ selDefs i, r < s.2.rng.s.line) ∧
+    ∀ x ∈ unselDefs i, x.1 < i.first → x.2.rng.s.line < r)
+
+/-- **the requests that are refused** -/
+def Refuse (i : Input) (rows : List (List Nat)) (t : Bool) : Prop :=
+  selDefs i = [] ∨                                                   -- no line number in `[beg,end)`
+  ¬ (i.defs.map (·.1)).Nodup ∨                                       -- the source has a line number twice
+  (i.first > i.maxNum ∨ i.step < 1 ∨ i.step > i.maxNum) ∨            -- start / step out of range
+  lastNew i > i.maxNum ∨                                             -- would exceed 63999 (32767)
+  (∃ x ∈ unselDefs i, i.first ≤ x.1 ∧ x.1 ≤ lastNew i) ∨             -- would duplicate a number / interleave
+  (NeedsMove i rows ∧ i.flags % 2 = 0) ∨                             -- lines would have to move, REORDER not set
+  (NeedsMove i rows ∧ t = false ∧ ∃ s ∈ selDefs i, s.2.rng.s.line + 1 = rows.length)
+                                                                     -- (spurious) move of the last row, no final newline
+
+theorem group_length_of_nodup (xs : List (Nat × Label)) (h : (xs.map (·.1)).Nodup) :
+    (group xs).length = xs.length := by
+  have hs := (singletons_iff_nodup xs).mpr h
+  have h1 := (ungroup_group_perm xs).length_eq
+  have h2 := congrArg List.length (ungroup_keys_of_singletons (group xs) hs)
+  simp only [List.length_map] at h2
+  omega
+
+theorem mem_selDefs {i : Input} {x : Nat × Label} : x ∈ selDefs i ↔ x ∈ i.defs ∧ i.beg ≤ x.1 ∧ x.1 < i.end_ := by
+  simp [selDefs, selNum, List.mem_filter]
+
+theorem mem_unselDefs {i : Input} {x : Nat × Label} :
+    x ∈ unselDefs i ↔ x ∈ i.defs ∧ ¬ (i.beg ≤ x.1 ∧ x.1 < i.end_) := by
+  simp only [unselDefs, selNum, List.mem_filter, Bool.not_eq_true', Bool.and_eq_false_iff, decide_eq_false_iff_not]
+  constructor
+  · rintro ⟨h1, h2⟩; exact ⟨h1, by omega⟩
+  · rintro ⟨h1, h2⟩; exact ⟨h1, by omega⟩
+
+/-- the facts about the selection that the refusal theorems share -/
+structure PlanCtx (i : Input) (rows : List (List Nat)) (sel : Range) : Prop where
+  hok : ∀ x ∈ i.defs ++ i.refs, labelOK rows x = true
+  hinSel : ∀ x ∈ i.defs, inSel sel x.2 = true ↔ (i.beg ≤ x.1 ∧ x.1 < i.end_)
+  hab : sel.s.line ≤ sel.e.line
+  hda : ∃ d ∈ i.defs, d.2.rng.s.line = sel.s.line
+  hdb : ∃ d ∈ i.defs, d.2.rng.s.line = sel.e.line
+  hnd : (i.defs.map (·.1)).Nodup
+
+theorem PlanCtx.onSel {i : Input} {rows : List (List Nat)} {sel : Range} (c : PlanCtx i rows sel) {x : Nat × Label}
+    (hx : x ∈ i.defs) : onSelRows sel x.2 ↔ (i.beg ≤ x.1 ∧ x.1 < i.end_) := by
+  rw [← c.hinSel x hx]
+  obtain ⟨_, _, he, _, _⟩ := labelOK_geom (c.hok _ (List.mem_append_left _ hx))
+  unfold onSelRows
+  simp only [inSel, Bool.and_eq_true, decide_eq_true_eq]
+  omega
+
+theorem PlanCtx.selLen {i : Input} {rows : List (List Nat)} {sel : Range} (c : PlanCtx i rows sel) :
+    (selGroup sel i.defs).length = (selDefs i).length := by
+  have : i.defs.filter (fun d => inSel sel d.2) = selDefs i := by
+    unfold selDefs
+    apply List.filter_congr
+    intro x hx
+    rw [Bool.eq_iff_iff, c.hinSel x hx]
+    simp [selNum]
+  unfold selGroup
+  rw [this]
+  apply group_length_of_nodup
+  exact List.Nodup.sublist ((List.filter_sublist).map _) c.hnd
+
+theorem PlanCtx.lastEq {i : Input} {rows : List (List Nat)} {sel : Range} (c : PlanCtx i rows sel) :
+    lastNum i.params sel i.defs = lastNew i := by
+  unfold lastNum lastNew
+  rw [c.selLen]
+  rfl
+
+theorem PlanCtx.selRow {i : Input} {rows : List (List Nat)} {sel : Range} (c : PlanCtx i rows sel) :
+    ∀ s ∈ selDefs i, sel.s.line ≤ s.2.rng.s.line ∧ s.2.rng.s.line ≤ sel.e.line := by
+  intro s hs
+  obtain ⟨hsd, hss⟩ := mem_selDefs.mp hs
+  have := (c.hinSel s hsd).mpr hss
+  simpa [inSel] using this
+
+/-- a defining label is an entry `[lab]` of the grouped map -/
+theorem entry_of_def {i : Input} (hnd : (i.defs.map (·.1)).Nodup) {x : Nat × Label} (hx : x ∈ i.defs) :
+    (x.1, [x.2]) ∈ group i.defs := by
+  obtain ⟨vs, hvs, hl⟩ := (memG_group i.defs x.1 x.2).mpr hx
+  obtain ⟨lab, hlab⟩ := (singletons_iff_nodup i.defs).mpr hnd _ hvs
+  dsimp only at hlab
+  subst hlab
+  simp only [List.mem_singleton] at hl
+  subst hl
+  exact hvs
+
+/-- **when lines have to move**: `insert_pos.line ≠ sel.start.line` says exactly `NeedsMove` (`ins0` is the result of
+the loop over `all_primaries`, the blank-line loop follows) -/
+theorem needsMove_iff' {i : Input} {rows : List (List Nat)} {sel : Range} {ln ins0 : Nat}
+    (hck : checkLoop sel i.first ln (group i.defs) 0 = some ins0)
+    (c : PlanCtx i rows sel) : pushBlank rows 0 ins0 ≠ sel.s.line ↔ NeedsMove i rows := by
+  have hokd : ∀ x ∈ i.defs, labelOK rows x = true := fun x hx => c.hok x (List.mem_append_left _ hx)
+  obtain ⟨p1, pL, p3, hcase⟩ := ins_cases sel _ _ i.defs rows ins0 hck hokd c.hda
+  obtain ⟨_, hbound, hatt⟩ := checkLoop_ins hck
+  obtain ⟨_, p2, _, _⟩ := pushBlank_spec rows 0 ins0 (Nat.zero_le _)
+  simp only [Nat.sub_zero] at p2
+  obtain ⟨da, hda, hrowa⟩ := c.hda
+  obtain ⟨db, hdb, hrowb⟩ := c.hdb
+  have hdaSel : da ∈ selDefs i := by
+    refine mem_selDefs.mpr ⟨hda, (c.hinSel da hda).mp ?_⟩
+    have := c.hab
+    simp only [inSel, Bool.and_eq_true, decide_eq_true_eq]; omega
+  have hdbSel : db ∈ selDefs i := by
+    refine mem_selDefs.mpr ⟨hdb, (c.hinSel db hdb).mp ?_⟩
+    have := c.hab
+    simp only [inSel, Bool.and_eq_true, decide_eq_true_eq]; omega
+  -- an unselected line numbered below `first` stands in front of `ins0`
+  have hlow : ∀ x ∈ unselDefs i, x.1 < i.first → x.2.rng.s.line + 1 ≤ ins0 := by
+    intro x hx hlt
+    obtain ⟨hxd, hns⟩ := mem_unselDefs.mp hx
+    exact hbound x.1 x.2 (entry_of_def c.hnd hxd) (fun h => hns ((c.onSel hxd).mp h)) hlt
+  have hselRow := c.selRow
+  constructor
+  · intro hne
+    rcases hcase with ⟨h0, hle⟩ | h0
+    · -- the block goes up: row `ins` is the witness of the second clause
+      right
+      have hb := c.hab
+      have hlt : pushBlank rows 0 ins0 < sel.s.line := by omega
+      obtain ⟨lb, hlb, _⟩ := labelOK_geom (hokd db hdb)
+      have hbL : sel.e.line < rows.length := by
+        rcases Nat.lt_or_ge sel.e.line rows.length with h' | h'
+        · exact h'
+        · rw [hrowb, List.getElem?_eq_none h'] at hlb; cases hlb
+      obtain ⟨l, hl⟩ : ∃ l, rows[pushBlank rows 0 ins0]? = some l :=
+        ⟨rows[pushBlank rows 0 ins0]'(by omega), List.getElem?_eq_getElem (by omega)⟩
+      refine ⟨_, l, hl, p3 l hl, ?_, ?_⟩
+      · intro s hs; have := hselRow s hs; omega
+      · intro x hx hlt'; have := hlow x hx hlt'; omega
+    · -- the block goes down: the line that pushed `ins0` behind the selection is the witness
+      left
+      rcases hatt with h' | ⟨q, i0, hm, hout, hq, h'⟩
+      · omega
+      · have hmem : (q, i0) ∈ i.defs := (memG_group i.defs q i0).mp ⟨[i0], hm, by simp⟩
+        refine ⟨(q, i0), mem_unselDefs.mpr ⟨hmem, fun hs => hout ((c.onSel hmem).mpr hs)⟩, hq,
+          db, hdbSel, ?_⟩
+        dsimp only
+        omega
+  · rintro (⟨x, hx, hlt, s, hs, hrow⟩ | ⟨r, l, hl, hnb, hbefore, hafter⟩)
+    · have h1 := hlow x hx hlt
+      have h2 := hselRow s hs
+      omega
+    · intro heq
+      have hra : r < sel.s.line := by have := hbefore da hdaSel; omega
+      have hi0 : ins0 ≤ r := by
+        rcases hatt with h' | ⟨q, i0, hm, hout, hq, h'⟩
+        · omega
+        · have hmem : (q, i0) ∈ i.defs := (memG_group i.defs q i0).mp ⟨[i0], hm, by simp⟩
+          have := hafter (q, i0) (mem_unselDefs.mpr ⟨hmem, fun hs => hout ((c.onSel hmem).mpr hs)⟩) hq
+          dsimp only at this
+          omega
+      obtain ⟨l', hl', hb'⟩ := p2 r hi0 (by omega)
+      rw [hl] at hl'
+      injection hl' with hl'
+      subst hl'
+      rw [hnb] at hb'; cases hb'
+
+theorem needsMove_iff {i : Input} {rows : List (List Nat)} {pl : Plan} {ext : Option Range}
+    (hp : plan i.src i.defs i.refs ext i.params = .ok pl) (hsplit : splitLines i.src = rows)
+    (c : PlanCtx i rows pl.sel) : pl.ins ≠ pl.sel.s.line ↔ NeedsMove i rows := by
+  obtain ⟨ins0, hck, hins⟩ := (plan_ok_inv hp).check
+  rw [hsplit] at hins
+  rw [hins]
+  exact needsMove_iff' hck c
+
+/-- without a move the label edits always apply -/
+theorem noMove_applies {i : Input} {d : List Nat} {rows : List (List Nat)} {t crlf : Bool}
+    (hdoc : IsDoc d rows t) (hsrc : i.src = if crlf then lfToCrlf d else d)
+    (hlab : labelsOK i.src i.defs i.refs = true) (hupdF : i.flags / 2 % 2 = 0)
+    {ext : Option Range} {pl : Plan} (hp : plan i.src i.defs i.refs ext i.params = .ok pl) :
+    ∃ out, applyEdits i.src (pl.selEdits ++ pl.unselEdits) 0 = .ok out := by
+  have hupd : i.params.updateRefs = true := by simp [Input.params, hupdF]
+  have f := plan_ok_inv hp
+  have hsplit : splitLines i.src = rows := by
+    rw [hsrc]
+    cases crlf with
+    | true => simp only [↓reduceIte]; rw [splitLines_lfToCrlf d (noCR_isDoc hdoc)]; exact splitLines_isDoc hdoc
+    | false => exact splitLines_isDoc hdoc
+  unfold labelsOK at hlab
+  simp only [hsplit, Bool.and_eq_true, List.all_eq_true] at hlab
+  obtain ⟨hok, hpw⟩ := hlab
+  have hpw' : (i.defs ++ i.refs).Pairwise DisjX := by
+    have := (pairwiseB_iff _ _).mp hpw
+    rw [List.pairwise_map] at this
+    exact this
+  have hrowR : ∀ x ∈ i.refs, x.2.rng.e.line = x.2.rng.s.line := by
+    intro x hx
+    obtain ⟨_, _, h2, _⟩ := labelOK_geom (hok x (List.mem_append_right _ hx))
+    exact h2
+  have hrowR' : ∀ x ∈ i.refs, x.2.rng.s.line = x.2.rng.e.line := fun x hx => (hrowR x hx).symm
+  have hE : pl.selEdits ++ pl.unselEdits =
+      primEdits pl.mapping (selGroup pl.sel i.defs) ++ secEdits pl.mapping (selGroup pl.sel i.refs) (fun _ => true) ++
+      secEdits pl.mapping (group i.refs)
+        (fun item => item.rng.s.line < pl.sel.s.line || item.rng.e.line > pl.sel.e.line) := by
+    rw [f.selEdits, f.unselEdits]; simp [hupd]
+  have hdis : (pl.selEdits ++ pl.unselEdits).Pairwise DisjE := by
+    rw [hE]; exact edits_pairwise _ _ _ _ hpw' hrowR
+  have hfit : ∀ ed ∈ pl.selEdits ++ pl.unselEdits,
+      EditOn rows ed ∧ ed.rng.s.ch < ed.rng.e.ch ∧ ed.new ≠ [] := by
+    intro ed hed
+    obtain ⟨num, lab, n, hmem, _, _, rfl⟩ := only_label_edits hp hupd hrowR' ed hed
+    have hmem' : (num, lab) ∈ i.defs ++ i.refs := List.mem_append.mpr hmem
+    obtain ⟨l, hl, h2, h3, h4⟩ := labelOK_geom (hok _ hmem')
+    obtain ⟨hn1, hn2⟩ := applyMapping_new n lab
+    exact ⟨⟨h2, hn1, l, hl, Nat.le_of_lt h3, h4⟩, h3, hn2⟩
+  obtain ⟨d', rows', happ', _⟩ := applyEdits_disjoint hdoc crlf (pl.selEdits ++ pl.unselEdits) hfit hdis
+  rw [← hsrc] at happ'
+  exact ⟨_, happ'⟩
+
+/-- the selection `renumber` passes to `build_edits`, for a program whose numbers ascend with the rows -/
+theorem planCtx_of {i : Input} {rows : List (List Nat)} (hsplit : splitLines i.src = rows)
+    (hlab : labelsOK i.src i.defs i.refs = true)
+    (hmono : ∀ d1 ∈ i.defs, ∀ d2 ∈ i.defs, d1.2.rng.s.line ≤ d2.2.rng.s.line → d1.1 ≤ d2.1)
+    (hrows : ∀ x ∈ i.defs, x.2.rng.s.line < 0x10000)
+    {ext : Option Range} (hext : extSelOf i.defs i.beg i.end_ = some ext)
+    (hany : anySelected i.defs i.beg i.end_ = true) :
+    ∃ l0 ln l, ext = some ⟨⟨l0, 0⟩, ⟨ln + 1, 0⟩⟩ ∧ l0 ≤ ln ∧ rows[ln]? = some l ∧
+      ∀ c : Nat, PlanCtx i rows ⟨⟨l0, 0⟩, ⟨ln, c⟩⟩ := by
+  obtain ⟨l0, ln, rfl, hle, hiff⟩ := extSelOf_spec i.defs i.beg i.end_ ext hext hany hmono hrows
+  obtain ⟨hda, hdb⟩ := extSelOf_ends i.defs i.beg i.end_ l0 ln hext hrows
+  unfold labelsOK at hlab
+  simp only [hsplit, Bool.and_eq_true, List.all_eq_true] at hlab
+  obtain ⟨hok, _⟩ := hlab
+  obtain ⟨db, hdb', hrowb⟩ := hdb
+  obtain ⟨l, hl, _⟩ := labelOK_geom (hok db (List.mem_append_left _ hdb'))
+  rw [hrowb] at hl
+  have hnd : (i.defs.map (·.1)).Nodup := by
+    apply (singletons_iff_nodup i.defs).mp
+    unfold extSelOf at hext
+    cases hs : selRows i.beg i.end_ (group i.defs) 0x10000 0 with
+    | none => simp [hs] at hext
+    | some r => exact selRows_some hs
+  refine ⟨l0, ln, l, rfl, hle, hl, fun c => ⟨hok, ?_, hle, hda, ⟨db, hdb', hrowb⟩, hnd⟩⟩
+  intro x hx
+  rw [← hiff x hx]
+  simp only [inSel, Bool.and_eq_true, decide_eq_true_eq]
+
+theorem renumber_of_build_err {i : Input} {ext : Option Range} (hext : extSelOf i.defs i.beg i.end_ = some ext)
+    (hany : anySelected i.defs i.beg i.end_ = true)
+    (hb : buildEdits i.src i.defs i.refs ext i.params = .err) : renumber i = .err := by
+  unfold renumber renumberWith
+  simp [hext, hany, hb]
+
+theorem renumber_of_apply {i : Input} {ext : Option Range} {edits : List Edit}
+    (hext : extSelOf i.defs i.beg i.end_ = some ext) (hany : anySelected i.defs i.beg i.end_ = true)
+    (hb : buildEdits i.src i.defs i.refs ext i.params = .ok edits) : renumber i = applyEdits i.src edits 0 := by
+  unfold renumber renumberWith
+  simp only [hext, hany, Bool.not_false, Bool.not_true, Bool.and_false, Bool.false_eq_true, ↓reduceIte, hb]
+  cases applyEdits i.src edits 0 <;> rfl
+
+theorem plan_bad_params (allTxt : List Nat) (defs refs : List (Nat × Label)) (ext : Option Range) (p : Params)
+    (h : ¬ ((p.minNum ≤ p.l0 ∧ p.l0 ≤ p.maxNum) ∧ (1 ≤ p.dl ∧ p.dl ≤ p.maxNum))) :
+    plan allTxt defs refs ext p = .err := by
+  unfold plan
+  simp only []
+  by_cases h1 : p.l0 < p.minNum ∨ p.l0 > p.maxNum
+  · rw [if_pos h1]
+  · rw [if_neg h1, if_pos (by omega)]
+
+/-- **accepted ⇒ none of the refusal conditions holds** (the contrapositives collected) -/
+theorem accepted_not_refuse (i : Input) (out d : List Nat) (rows : List (List Nat)) (t crlf : Bool)
+    (hdoc : IsDoc d rows t) (hsrc : i.src = if crlf then lfToCrlf d else d)
+    (hlab : labelsOK i.src i.defs i.refs = true)
+    (hmono : ∀ d1 ∈ i.defs, ∀ d2 ∈ i.defs, d1.2.rng.s.line ≤ d2.2.rng.s.line → d1.1 ≤ d2.1)
+    (hrows : ∀ x ∈ i.defs, x.2.rng.s.line < 0x10000)
+    (hupdF : i.flags / 2 % 2 = 0)
+    (h : renumber i = .ok out) : ¬ Refuse i rows t := by
+  obtain ⟨ext, pl, edits, hext, hany, hp, hb, happ⟩ := renumber_ok_inv h
+  have hsplit : splitLines i.src = rows := by
+    rw [hsrc]
+    cases crlf with
+    | true => simp only [↓reduceIte]; rw [splitLines_lfToCrlf d (noCR_isDoc hdoc)]; exact splitLines_isDoc hdoc
+    | false => exact splitLines_isDoc hdoc
+  obtain ⟨l0, ln, l, hextEq, hle, hl, hc⟩ := planCtx_of hsplit hlab hmono hrows hext hany
+  obtain ⟨hextEq', _, _⟩ := keys_spec hmono hrows hext hany hp
+  rw [hextEq] at hextEq'
+  injection hextEq' with hextEq'
+  injection hextEq' with e1 e2
+  injection e1 with e1 _
+  injection e2 with e2 _
+  have e2' : ln = pl.sel.e.line := by omega
+  have c : PlanCtx i rows pl.sel := by
+    have := hc pl.sel.e.ch
+    rw [e1, e2'] at this
+    have hs : pl.sel = ⟨⟨pl.sel.s.line, 0⟩, ⟨pl.sel.e.line, pl.sel.e.ch⟩⟩ := by
+      obtain ⟨ep, hns⟩ := (plan_ok_inv hp).selNorm
+      rw [hextEq] at hns
+      unfold normSel at hns
+      simp only [Nat.add_sub_cancel, true_and] at hns
+      rw [if_pos (by omega)] at hns
+      split at hns
+      · injection hns with hns; rw [← hns]
+      · cases hns
+    rw [hs]; exact this
+  have f := plan_ok_inv hp
+  rintro (h1 | h2 | h3 | h4 | ⟨x, hx, hr⟩ | ⟨hm, hfl⟩ | ⟨hm, ht, s, hs, hsl⟩)
+  · unfold anySelected at hany
+    obtain ⟨ds, hds, hsel⟩ := List.any_eq_true.mp hany
+    simp only [Bool.and_eq_true, decide_eq_true_eq] at hsel
+    have : ds ∈ selDefs i := mem_selDefs.mpr ⟨hds, hsel⟩
+    rw [h1] at this; cases this
+  · exact h2 c.hnd
+  · have := f.l0_ok; have := f.dl_ok
+    have e1 : i.params.l0 = i.first := rfl
+    have e2 : i.params.dl = i.step := rfl
+    have e3 : i.params.maxNum = i.maxNum := rfl
+    omega
+  · have := f.bound
+    rw [c.lastEq] at this
+    have e3 : i.params.maxNum = i.maxNum := rfl
+    omega
+  · obtain ⟨hxd, hns⟩ := mem_unselDefs.mp hx
+    have := accepts_only_without_collision hp x.1 x.2 hxd (fun hon => hns ((c.onSel hxd).mp hon))
+    rw [c.lastEq] at this
+    exact this hr
+  · have hmv := (needsMove_iff hp hsplit c).mpr hm
+    exact hmv (f.move (by simp [Input.params, hfl]))
+  · have hmv := (needsMove_iff hp hsplit c).mpr hm
+    subst ht
+    have := move_last_row_refused i d rows crlf hdoc hsrc hlab hmono hrows hupdF out h ext pl hp hext hmv
+    have := (c.selRow s hs).2
+    omega
+
+/-- **every request is accepted or refused (no crash), and a refused one meets a refusal condition** -/
+theorem renumber_outcome (i : Input) (d : List Nat) (rows : List (List Nat)) (t crlf : Bool)
+    (hdoc : IsDoc d rows t) (hsrc : i.src = if crlf then lfToCrlf d else d)
+    (hlab : labelsOK i.src i.defs i.refs = true)
+    (hmono : ∀ d1 ∈ i.defs, ∀ d2 ∈ i.defs, d1.2.rng.s.line ≤ d2.2.rng.s.line → d1.1 ≤ d2.1)
+    (hrows : ∀ x ∈ i.defs, x.2.rng.s.line < 0x10000)
+    (hupdF : i.flags / 2 % 2 = 0) :
+    (∃ out, renumber i = .ok out) ∨ (renumber i = .err ∧ Refuse i rows t) := by
+  have hsplit : splitLines i.src = rows := by
+    rw [hsrc]
+    cases crlf with
+    | true => simp only [↓reduceIte]; rw [splitLines_lfToCrlf d (noCR_isDoc hdoc)]; exact splitLines_isDoc hdoc
+    | false => exact splitLines_isDoc hdoc
+  by_cases hnd : (i.defs.map (·.1)).Nodup
+  case neg =>
+    right
+    refine ⟨?_, Or.inr (Or.inl hnd)⟩
+    have : selRows i.beg i.end_ (group i.defs) 0x10000 0 = none :=
+      selRows_none_of _ _ _ _ _ (fun hs => hnd ((singletons_iff_nodup i.defs).mp hs))
+    unfold renumber renumberWith extSelOf
+    simp [this]
+  obtain ⟨r, hr⟩ := selRows_isSome i.beg i.end_ (group i.defs) 0x10000 0 ((singletons_iff_nodup i.defs).mpr hnd)
+  obtain ⟨ext, hext⟩ : ∃ ext, extSelOf i.defs i.beg i.end_ = some ext := by
+    unfold extSelOf; rw [hr]; exact ⟨_, rfl⟩
+  by_cases hany : anySelected i.defs i.beg i.end_ = true
+  case neg =>
+    right
+    constructor
+    · unfold renumber renumberWith
+      simp [hext, hany]
+    · left
+      unfold selDefs
+      apply List.filter_eq_nil_iff.mpr
+      intro x hx hsel
+      apply hany
+      unfold anySelected
+      exact List.any_eq_true.mpr ⟨x, hx, by simpa [selNum] using hsel⟩
+  obtain ⟨l0, ln, l, hextEq, hle, hl, hc⟩ := planCtx_of hsplit hlab hmono hrows hext hany
+  subst hextEq
+  have c := hc l.length
+  have e1 : i.params.l0 = i.first := rfl
+  have e2 : i.params.dl = i.step := rfl
+  have e3 : i.params.maxNum = i.maxNum := rfl
+  have e4 : i.params.minNum = 0 := rfl
+  by_cases hpar : (i.params.minNum ≤ i.params.l0 ∧ i.params.l0 ≤ i.params.maxNum) ∧
+      (1 ≤ i.params.dl ∧ i.params.dl ≤ i.params.maxNum)
+  case neg =>
+    right
+    refine ⟨renumber_of_build_err hext hany ?_, Or.inr (Or.inr (Or.inl ?_))⟩
+    · unfold buildEdits
+      rw [plan_bad_params _ _ _ _ _ hpar]; rfl
+    · omega
+  rcases plan_outcome i.src i.defs i.refs i.params rows l0 ln l hsplit hl hle hpar.1 hpar.2 with
+    ⟨hperr, hreason⟩ | ⟨pl, hp, hsel⟩
+  · right
+    refine ⟨renumber_of_build_err hext hany (by unfold buildEdits; rw [hperr]; rfl), ?_⟩
+    rcases hreason with r1 | r2 | r3 | ⟨ins0, hck, ham, hne⟩
+    · -- a selected line exists
+      exfalso
+      unfold anySelected at hany
+      obtain ⟨ds, hds, hsel⟩ := List.any_eq_true.mp hany
+      simp only [Bool.and_eq_true, decide_eq_true_eq] at hsel
+      have := c.selLen
+      have hpos : 0 < (selDefs i).length := List.length_pos_of_mem (mem_selDefs.mpr ⟨hds, hsel⟩)
+      omega
+    · rw [c.lastEq] at r2
+      exact Or.inr (Or.inr (Or.inr (Or.inl (by omega))))
+    · rw [c.lastEq] at r3
+      by_cases hcol : ∃ x ∈ unselDefs i, i.first ≤ x.1 ∧ x.1 ≤ lastNew i
+      · exact Or.inr (Or.inr (Or.inr (Or.inr (Or.inl hcol))))
+      · exfalso
+        obtain ⟨ins', hsome⟩ := checkLoop_isSome ⟨⟨l0, 0⟩, ⟨ln, l.length⟩⟩ i.params.l0 (lastNew i) (group i.defs) 0 (by
+          intro x hx
+          obtain ⟨lab, hlab⟩ := (singletons_iff_nodup i.defs).mpr hnd x hx
+          refine ⟨lab, hlab, ?_⟩
+          have hmem : (x.1, lab) ∈ i.defs := (memG_group i.defs x.1 lab).mp ⟨x.2, hx, by rw [hlab]; simp⟩
+          by_cases hon : onSelRows ⟨⟨l0, 0⟩, ⟨ln, l.length⟩⟩ lab
+          · exact Or.inl hon
+          · right
+            intro hr
+            exact hcol ⟨(x.1, lab), mem_unselDefs.mpr ⟨hmem, fun hs => hon ((c.onSel hmem).mpr hs)⟩, hr⟩)
+        rw [r3] at hsome; cases hsome
+    · rw [c.lastEq] at hck
+      have hm := (needsMove_iff' hck c).mp hne
+      refine Or.inr (Or.inr (Or.inr (Or.inr (Or.inr (Or.inl ⟨hm, ?_⟩)))))
+      have : (i.flags % 2 == 1) = false := ham
+      have h2 := Nat.mod_two_eq_zero_or_one i.flags
+      rcases h2 with h2 | h2
+      · exact h2
+      · rw [h2] at this; cases this
+  · have c' : PlanCtx i rows pl.sel := by rw [hsel]; exact c
+    have huniq : ∀ num l1 l2, (num, l1) ∈ i.defs → (num, l2) ∈ i.defs → l1 = l2 := by
+      intro num l1 l2 h1 h2
+      have hn1 := entry_of_def hnd h1
+      have hn2 := entry_of_def hnd h2
+      have hkn := keys_nodup_group i.defs
+      have : ∀ (m : List (Nat × List Label)), (m.map (·.1)).Nodup → ∀ x y, (num, x) ∈ m → (num, y) ∈ m → x = y := by
+        intro m
+        induction m with
+        | nil => intro _ x y hx; cases hx
+        | cons z zs ih =>
+          intro hnd x y hx hy
+          simp only [List.map_cons, List.nodup_cons] at hnd
+          rcases List.mem_cons.mp hx with hx | hx <;> rcases List.mem_cons.mp hy with hy | hy
+          · rw [← hx] at hy; injection hy with _ hy; exact hy.symm
+          · exact absurd (List.mem_map_of_mem (f := (·.1)) hy) (by rw [← hx] at hnd; exact hnd.1)
+          · exact absurd (List.mem_map_of_mem (f := (·.1)) hx) (by rw [← hy] at hnd; exact hnd.1)
+          · exact ih hnd.2 x y hx hy
+      have := this _ hkn _ _ hn1 hn2
+      injection this
+    by_cases hmv : pl.ins = pl.sel.s.line
+    · left
+      obtain ⟨out, hout⟩ := noMove_applies hdoc hsrc hlab hupdF hp
+      have hb : buildEdits i.src i.defs i.refs (some ⟨⟨l0, 0⟩, ⟨ln + 1, 0⟩⟩) i.params =
+          .ok (pl.selEdits ++ pl.unselEdits) := by
+        unfold buildEdits
+        simp only [hp, Res.bind]
+        rw [if_neg (by simpa using hmv)]
+      exact ⟨out, by rw [renumber_of_apply hext hany hb]; exact hout⟩
+    · have hsl : pl.sel.s.line = l0 ∧ pl.sel.e.line = ln := by rw [hsel]; exact ⟨rfl, rfl⟩
+      obtain ⟨B, updated, last, mc, hbe, _, _⟩ :=
+        move_setup hdoc hsrc hlab hrows hupdF huniq hext (by rw [hsl.1, hsl.2]) c'.hab hp hmv
+      by_cases hbad : t = false ∧ pl.sel.e.line + 1 = rows.length
+      · right
+        obtain ⟨ht, hbL⟩ := hbad
+        subst ht
+        refine ⟨?_, Or.inr (Or.inr (Or.inr (Or.inr (Or.inr (Or.inr ⟨(needsMove_iff hp hsplit c').mp hmv, rfl, ?_⟩)))))⟩
+        · rw [renumber_of_apply hext hany hbe, hsrc]
+          exact mc.applyEdits_move_err hdoc crlf hbL
+        · obtain ⟨db, hdb, hrowb⟩ := c'.hdb
+          refine ⟨db, mem_selDefs.mpr ⟨hdb, (c'.hinSel db hdb).mp ?_⟩, by omega⟩
+          have := c'.hab
+          simp only [inSel, Bool.and_eq_true, decide_eq_true_eq]; omega
+      · left
+        have hokk : t = true ∨ pl.sel.e.line + 1 < rows.length := by
+          have := mc.hbL
+          cases t with
+          | true => exact Or.inl rfl
+          | false => right; simp at hbad; omega
+        obtain ⟨N, _, _, _, hres⟩ := mc.applyEdits_move hdoc crlf hokk
+        exact ⟨_, by rw [renumber_of_apply hext hany hbe, hsrc]; exact hres⟩
+
+/-- **Accepted ⟺ no refusal condition.** -/
+theorem accepted_iff (i : Input) (d : List Nat) (rows : List (List Nat)) (t crlf : Bool)
+    (hdoc : IsDoc d rows t) (hsrc : i.src = if crlf then lfToCrlf d else d)
+    (hlab : labelsOK i.src i.defs i.refs = true)
+    (hmono : ∀ d1 ∈ i.defs, ∀ d2 ∈ i.defs, d1.2.rng.s.line ≤ d2.2.rng.s.line → d1.1 ≤ d2.1)
+    (hrows : ∀ x ∈ i.defs, x.2.rng.s.line < 0x10000)
+    (hupdF : i.flags / 2 % 2 = 0) :
+    (∃ out, renumber i = .ok out) ↔ ¬ Refuse i rows t := by
+  constructor
+  · rintro ⟨out, h⟩
+    exact accepted_not_refuse i out d rows t crlf hdoc hsrc hlab hmono hrows hupdF h
+  · intro hn
+    rcases renumber_outcome i d rows t crlf hdoc hsrc hlab hmono hrows hupdF with h | ⟨_, h⟩
+    · exact h
+    · exact absurd h hn
+
+/-- **The refusal clause, in full** ("a request that would duplicate a line number, exceed 63999 or interleave lines is
+refused"), both dialects (`maxNum` = 63999 Applesoft, 32767 Integer BASIC).  For a program whose labels satisfy
+`labelsOK` and whose numbers ascend with the rows (references being updated), `renumber` returns `Err` **exactly** when
+`Refuse` holds: no line in `[beg,end)`; a line number twice in the source; `first`/`step` out of range; the last new
+number above `maxNum`; an unselected number inside `[first, last]` (duplicate or interleave); the selected lines would
+have to move and REORDER is not set (interleave); or — the one refusal that is not called for — REORDER is set, the last
+row has to move and the text has no final newline.  In every other case the request is accepted; it never panics. -/
+theorem refused_iff (i : Input) (d : List Nat) (rows : List (List Nat)) (t crlf : Bool)
+    (hdoc : IsDoc d rows t) (hsrc : i.src = if crlf then lfToCrlf d else d)
+    (hlab : labelsOK i.src i.defs i.refs = true)
+    (hmono : ∀ d1 ∈ i.defs, ∀ d2 ∈ i.defs, d1.2.rng.s.line ≤ d2.2.rng.s.line → d1.1 ≤ d2.1)
+    (hrows : ∀ x ∈ i.defs, x.2.rng.s.line < 0x10000)
+    (hupdF : i.flags / 2 % 2 = 0) :
+    (renumber i = .err ↔ Refuse i rows t) ∧ renumber i ≠ .panic := by
+  have hout := renumber_outcome i d rows t crlf hdoc hsrc hlab hmono hrows hupdF
+  refine ⟨⟨?_, ?_⟩, ?_⟩
+  · intro herr
+    rcases hout with ⟨out, h⟩ | ⟨_, h⟩
+    · rw [herr] at h; cases h
+    · exact h
+  · intro hr
+    rcases hout with ⟨out, h⟩ | ⟨h, _⟩
+    · exact absurd hr (accepted_not_refuse i out d rows t crlf hdoc hsrc hlab hmono hrows hupdF h)
+    · exact h
+  · intro hp
+    rcases hout with ⟨out, h⟩ | ⟨h, _⟩ <;> rw [hp] at h <;> cases h
+
+/-- the caller's program after the operation: the returned text if the request is accepted; a refused request returns
+no text (`Err`), the caller keeps what it passed in (`renumber` takes `&str`; the CLI prints nothing, the language
+servers answer with an error and no edits) -/
+def programAfter (i : Input) : List Nat :=
+  match renumber i with
+  | .ok out => out
+  | _ => i.src
+
+/-- **… and the program is returned unmodified**: whenever the request is not accepted — in particular under every
+condition of `Refuse` — the program is what it was. -/
+theorem refused_unmodified (i : Input) (h : ¬ ∃ out, renumber i = .ok out) : programAfter i = i.src := by
+  unfold programAfter
+  cases hr : renumber i with
+  | ok out => exact absurd ⟨out, hr⟩ h
+  | err => rfl
+  | panic => rfl
+
+/-- instances of every refusal condition on `10 GOTO 30 / 20 END / 30 GOTO 10` (Applesoft bounds) and of the Integer
+BASIC bound: each is refused by the model, and the program is unmodified -/
+example :
+    let base := exIn
+    -- empty selection, bad step, beyond 63999 (64000 would be the 2nd new number), collision with the unselected 10,
+    -- interleave (20.. → 5 needs a move, REORDER off); accepted with REORDER on
+    renumber { base with beg := 21, end_ := 29 } = .err ∧
+    renumber { base with step := 0 } = .err ∧
+    renumber { base with first := 63999, step := 1 } = .err ∧
+    renumber { base with first := 63998, step := 1 } = .ok
+      [49,48,32,71,79,84,79,32,54,51,57,57,57,10,54,51,57,57,56,32,69,78,68,10,54,51,57,57,57,32,71,79,84,79,32,49,48,10] ∧
+    renumber { base with first := 5, step := 5 } = .err ∧
+    renumber { base with first := 1, step := 1 } = .err ∧
+    renumber { base with first := 1, step := 1, flags := 1 } = .ok
+      [49,32,69,78,68,10,50,32,71,79,84,79,32,49,48,10,49,48,32,71,79,84,79,32,50,10,10] ∧
+    -- Integer BASIC: 32767 is the last number
+    renumber { base with first := 32767, step := 1, maxNum := 32767 } = .err ∧
+    renumber { base with first := 32766, step := 1, maxNum := 32767 } = .ok
+      [49,48,32,71,79,84,79,32,51,50,55,54,55,10,51,50,55,54,54,32,69,78,68,10,51,50,55,54,55,32,71,79,84,79,32,49,48,10] ∧
+    programAfter { base with first := 5, step := 5 } = base.src := by decide
 
 end A2Verif.C16
